@@ -1117,6 +1117,7 @@ pub fn c17(ix: &Index) -> Vec<Viol> {
             label: String,
             unit_dups: bool,
             unit: usize,
+            optional: bool,
         }
         let mut copies: Vec<Copy> = Vec::new();
         // delivered records of this set, by (trace, root parent)
@@ -1133,16 +1134,17 @@ pub fn c17(ix: &Index) -> Vec<Viol> {
             let sp = &h.spans[p.span];
             let dups = dup_units(&sp.items);
             for it in sp.items.iter().filter(|i| i.sampled) {
-                // in cancelable mode a copy may be legitimately absent
-                let delivered_possible = if h.cancelable {
+                // in cancelable mode a copy pushed after the root finished may be absent, and a
+                // copy pushed into a cancelled trace must be
+                let optional = if h.cancelable {
                     let root = &h.spans[it.unit];
-                    !ix.root_cancelled(it.unit) && root.finish_t.map(|rf| p.t.1 < rf.0).unwrap_or(false)
+                    if ix.root_cancelled(it.unit) {
+                        continue;
+                    }
+                    !root.finish_t.map(|rf| p.t.1 < rf.0).unwrap_or(false)
                 } else {
-                    true
+                    false
                 };
-                if !delivered_possible {
-                    continue;
-                }
                 expected_copies += 1;
                 let pid = ix.id_of(PRef::Span(p.span));
                 let mut recs = Vec::new();
@@ -1165,6 +1167,7 @@ pub fn c17(ix: &Index) -> Vec<Viol> {
                     label: format!("push#{} of set#{} under span#{} in trace {:#x}", pi, si, p.span, it.trace),
                     unit_dups: dups.contains(&it.unit),
                     unit: it.unit,
+                    optional,
                 });
             }
         }
@@ -1178,6 +1181,9 @@ pub fn c17(ix: &Index) -> Vec<Viol> {
         }
         // completeness of each copy
         for c in &copies {
+            if c.optional && c.recs.is_empty() {
+                continue;
+            }
             if c.recs.len() != locals.len() {
                 out.push(v(
                     "C17",
